@@ -23,11 +23,12 @@ func init() {
 				"validator that cannot fail for a type is detected. R2: the rate limiter's subnet key lengths are bounded by their " +
 				"address family (32 / 128 accepted, 33 / 129 rejected). R3: configuration.validate validates every field of the " +
 				"configuration that implements the validator interface. R4: every integer division or remainder by a non-constant " +
-				"in production code has a divisor whose sources are non-zero constants or configuration values proven positive by R1.",
+				"in production code has a divisor whose sources are non-zero constants or configuration values proven positive by R1. " +
+				"R5: the conversions that feed the servers, the cache and the connection limiter copy each validated setting into the constructor field of the same meaning (a wrong-field copy would put an unvalidated value where a validated one is assumed).",
 			NotCovered: "hazards other than the recognised ones (non-positive quantities, family bounds, division by zero); validation " +
 				"of lists, URLs and cross-references between sections; the environment variables.",
 			Rules: map[string]string{"C20-R1": "zero / negative rejection of every numeric setting", "C20-R2": "subnet key length family bounds",
-				"C20-R3": "section table completeness", "C20-R4": "divisor provenance"},
+				"C20-R3": "section table completeness", "C20-R4": "divisor provenance", "C20-R5": "validated settings are copied into the constructor fields of the same meaning"},
 		}})
 }
 
@@ -212,6 +213,19 @@ func runC20(c *an.Ctx) {
 	c20Bounds(c)
 	c20Sections(c)
 	c20Divisions(c)
+
+	// ---- R5: validated settings reach the constructors under their own meaning
+	c.Floor("C20-R5", 12)
+	checkFieldMap(c, "C20-R5", "cmd.(servers).toInternal", "agd.Server", map[string]string{
+		"ReadTimeout": ".ReadTimeout.Duration", "WriteTimeout": ".WriteTimeout.Duration"})
+	checkFieldMap(c, "C20-R5", "cmd.(servers).toInternal", "agd.TCPConfig", map[string]string{
+		"IdleTimeout": ".TCPIdleTimeout.Duration", "MaxPipelineCount": ".TCP.MaxPipelineCount", "MaxPipelineEnabled": ".TCP.Enabled"})
+	checkFieldMap(c, "C20-R5", "cmd.(servers).toInternal", "agd.UDPConfig", map[string]string{"MaxRespSize": ".MaxUDPResponseSize"})
+	checkFieldMap(c, "C20-R5", "cmd.(servers).toInternal", "agd.QUICConfig", map[string]string{
+		"MaxStreamsPerPeer": ".QUIC.MaxStreamsPerPeer", "QUICLimitsEnabled": ".QUIC.Enabled"})
+	checkFieldMap(c, "C20-R5", "cmd.(*cacheConfig).toInternal", "dnssvc.CacheConfig", map[string]string{
+		"MinTTL": ".TTLOverride.Min.Duration", "ECSCount": ".ECSSize", "NoECSCount": ".Size", "OverrideCacheTTL": ".TTLOverride.Enabled"})
+	checkFieldMap(c, "C20-R5", "cmd.(*connLimitConfig).toInternal", "connlimiter.Config", map[string]string{"Stop": ".Stop", "Resume": ".Resume"})
 }
 
 // c20Struct decides, for every numeric field of configuration struct n, whether
